@@ -167,6 +167,14 @@ pub fn gen_heap(args: &Args) {
             "functie f() { 1 }; stel a = [string(\"a\"), float(0.5), string(string(7))]; f(); print(a); f(); a",
             "functie id(v) { v }; stel t = id(string(\"tekst\")); stel u = id(float(3.5)); id(0); [t, u, string(t), float(u)]",
             "functie f() { 1 }; stel i = 0; stel l = \"\"; zolang i < 5 { l = string(l); f(); i += 1 }; [l, lengte(l)]",
+            // programs without a single text or number-with-a-point literal: at their collections NOTHING the run's
+            // collector manages is reachable (literals are always roots), everything it manages is garbage
+            "functie f() { stel a = [1, 2, 3]; 0 }; f(); f(); 1",
+            "functie f(n) { stel a = [n, [n, n]]; stel s = string(n); lengte(a) + lengte(s) }; stel t = 0; stel i = 0; zolang i < 40 { t += f(i); i += 1 }; t",
+            "functie g() { string(1); [string(2)]; 0 }; g(); g(); g()",
+            "functie h() { [[], [[]]]; 0 }; h()",
+            "functie f() { stel a = [1]; 0 }; f(); stel k = [2]; f(); stel m = [k, [3]]; f(); m = 0; f(); k",
+            "functie f(v) { float(v) / float(2); 0 }; stel i = 0; zolang i < 30 { f(i); i += 1 }; i",
         ];
         let full = RunOpts { budget: Some(200_000), heap: true, release: true, ..Default::default() };
         for text in texts {
